@@ -774,6 +774,101 @@ func longKeys(w *tr.W, r *rng.R, thorough bool) {
 	}
 }
 
+// very long keys (63..130 bytes): clusters of keys that differ from a base key in one character at the
+// positions around the 64-character border and near the end; Match patterns of the same lengths with
+// wildcards at those positions (single, pairs, all); prefix and order queries on those keys.
+// (A word-sized bitmap of wildcard positions only shows beyond 64 characters.)
+var veryLongLens = []int{63, 64, 65, 66, 96, 130}
+
+func veryLong(w *tr.W, r *rng.R, thorough bool) {
+	rounds := 1
+	if thorough {
+		rounds = 4
+	}
+	for round := 0; round < rounds; round++ {
+		for _, n := range veryLongLens {
+			for _, small := range []bool{true, false} {
+				base := longBase(r, n, small)
+				for i := range base {
+					if base[i] == '*' {
+						base[i] = 'k'
+					}
+				}
+				pos := uniqInts([]int{0, 31, 62, 63, 64, 65, n - 2, n - 1})
+				var ps []int
+				for _, p := range pos {
+					if p < n {
+						ps = append(ps, p)
+					}
+				}
+				keys := []string{string(base)}
+				for _, p := range ps {
+					v := append([]byte(nil), base...)
+					v[p] ^= 0x03
+					if v[p] == '*' || v[p] == 0 {
+						v[p] ^= 0x0c
+					}
+					keys = append(keys, string(v))
+				}
+				keys = uniq(keys)
+				var ops []string
+				for i, k := range keys {
+					ops = append(ops, "P "+hx(k)+" "+strconv.Itoa(i+1))
+				}
+				ops = append(ops, "SZ", "ALL", "VF", "DUMP")
+				star := func(at ...int) string {
+					b := append([]byte(nil), base...)
+					for _, p := range at {
+						b[p] = '*'
+					}
+					return string(b)
+				}
+				match := func() {
+					ops = append(ops, "MA "+hx(string(base)))
+					for _, p := range ps {
+						ops = append(ops, "MA "+hx(star(p)))
+					}
+					for i := 0; i+1 < len(ps); i++ {
+						ops = append(ops, "MA "+hx(star(ps[i], ps[i+1])), "MA "+hx(star(ps[0], ps[len(ps)-1-i])))
+					}
+					ops = append(ops, "MA "+hx(star(ps...)), "MA "+hx(strings.Repeat("*", n)), "MA "+hx(star(ps...)+"*"),
+						"MA "+hx(star(ps...)[1:]))
+				}
+				match()
+				for _, k := range keys {
+					ops = append(ops, "G "+hx(k), "RK "+hx(k), "FL "+hx(k), "CE "+hx(k), "LP "+hx(k+"zz"))
+				}
+				for _, c := range []int{1, 31, 62, 63, 64, 65, n - 1} {
+					if c <= n {
+						ops = append(ops, "WP "+hx(string(base[:c])), "LP "+hx(string(base[:c])), "FL "+hx(string(base[:c])),
+							"CE "+hx(string(base[:c])), "RK "+hx(string(base[:c])+"\xff"), "G "+hx(string(base[:c])))
+					}
+				}
+				ops = append(ops, "RG "+hx(keys[1])+" "+hx(keys[len(keys)-1]), "RS "+hx(string(base[:40]))+" "+hx(string(base)+"a"), "MIN", "MAX")
+				for i, k := range keys {
+					switch i % 4 {
+					case 1:
+						ops = append(ops, "D "+hx(k), "G "+hx(k))
+					case 3:
+						ops = append(ops, "DMAX")
+					}
+					if i%3 == 2 {
+						match()
+						ops = append(ops, "SZ", "ALL")
+					}
+				}
+				ops = append(ops, "DMIN", "SZ", "ALL", "VF", "DUMP")
+				match()
+				both(w, ops)
+			}
+		}
+		// the reported shape: 70 x 'k' + "az" / "bz", pattern ending in "*z"
+		k70 := strings.Repeat("k", 70)
+		both(w, []string{"P " + hx(k70+"az") + " 1", "P " + hx(k70+"bz") + " 2", "MA " + hx(k70+"*z"), "MA " + hx(k70+"**"),
+			"MA " + hx("*"+k70[1:]+"*z"), "ALL", "D " + hx(k70+"az"), "MA " + hx(k70+"*z"), "SZ"})
+	}
+}
+
 func uniqInts(xs []int) []int {
 	seen := map[int]bool{}
 	var out []int
@@ -861,5 +956,6 @@ func main() {
 		adversarial(w, rng.FromEnv(64), thorough)
 	case "long":
 		longKeys(w, rng.FromEnv(65), thorough)
+		veryLong(w, rng.FromEnv(66), thorough)
 	}
 }
